@@ -255,6 +255,24 @@ theorem fsExtract_ok (k : Kind) {cap a tv : Nat} {m : Mem} {na : Nat} (ha : VecA
   rw [s3 y, v2.upd y, v1.upd y]
   (repeat' split) <;> vec_leaf ht, y
 
+/-- `replace(move(c))` with a local vector `c` of `xs.length` elements built in `tv`: the set takes the elements
+    by move assignment, the moved-from elements of `c` are destroyed with it -/
+theorem fsReplace_ok (k : Kind) {cap a tv : Nat} {m : Mem} {na : Nat} (xs : List Nat) (ha : VecAt m a cap na)
+    (ht : VecAt m tv cap 0) (hna : na ≤ cap) (hx : xs.length ≤ cap) (dat : a + cap ≤ tv ∨ tv + cap ≤ a) :
+    ∃ m', fsReplace k cap a tv m na xs = .ok (m', xs.length) ∧ VRes cap a m m' xs.length := by
+  obtain ⟨m1, r1, s1, b1⟩ := svPushValues_ok k cap tv xs m 0 (by omega)
+    (fun y h1 h2 => ht.dead (by omega) (by omega))
+  simp only [Nat.zero_add, Nat.add_zero] at r1 s1
+  have ha1 : VecAt m1 a cap na := ha.of_eq (fun y h1 h2 => by rw [s1 y, if_neg (by omega)])
+  obtain ⟨m2, r2, v2, _, _⟩ := svAssignFrom_ok k true (src := tv) (ns := xs.length) ha1 hna
+    (fun y h1 h2 => by rw [s1 y, if_pos ⟨h1, h2⟩]) hx (by omega)
+  have hs2 : ∀ y, tv ≤ y → y < tv + xs.length → m2.sh y = some (some 0) := fun y h1 h2 => by
+    rw [v2.upd.out (by omega), s1 y, if_pos ⟨h1, h2⟩]
+  obtain ⟨m3, r3, s3, _, b3⟩ := destroyRange_ok xs.length m2 tv hs2
+  refine ⟨m3, by simp only [fsReplace, r1, r2, r3], hx, fun y => ?_, fun h => b3 (v2.bal (b1 h))⟩
+  rw [s3 y, v2.upd y, s1 y]
+  (repeat' split) <;> vec_leaf ht, y
+
 /-! ### the locals of the session -/
 
 theorem inv_t2 {cap : Nat} {s : St} (hi : VecInv cap s) : s.mem.sh (t2Of cap) = some none := by
@@ -319,6 +337,7 @@ theorem sstep_inv_ss (k : Kind) (cap : Nat) (s : St) (t : Bool) (op : SOp) (hi :
   | swap => exact sstep_inv_fwd k cap s t .swap hi rfl
   | swapSelf => exact sstep_inv_fwd k cap s t .swapSelf hi rfl
   | extract => simp [svalid] at hv
+  | replace xs => simp [svalid] at hv
 
 theorem sstep_inv_fs (k : Kind) (cap : Nat) (s : St) (t : Bool) (op : SOp) (hi : VecInv cap s)
     (hv : svalid .fs cap s t op = true) : ∃ s', sstep .fs k cap s t op = .ok s' ∧ VecInv cap s' := by
@@ -363,6 +382,11 @@ theorem sstep_inv_fs (k : Kind) (cap : Nat) (s : St) (t : Bool) (op : SOp) (hi :
   | extract =>
     obtain ⟨m1, m2, m3, r1, r2, r3, vr⟩ := fsExtract_ok k hva (inv_tv hi) hna (out_tv cap t)
     exact ⟨s.put t m3 0, by simp only [sstep, r1, r2, r3], inv_put hi vr⟩
+  | replace xs =>
+    have hp : xs.length ≤ cap := by simpa [svalid] using hv
+    obtain ⟨m', r, vr⟩ := fsReplace_ok k xs hva (inv_tv hi) hna hp (out_tv cap t)
+    have h := upd_inv hi ⟨m', _, r, vr⟩
+    exact h
 
 theorem sstep_inv (fam : SFam) (k : Kind) (cap : Nat) (s : St) (t : Bool) (op : SOp)
     (hi : VecInv cap s) (hv : svalid fam cap s t op = true) :
